@@ -24,6 +24,12 @@ SizeBatch(m) == [i \in 1 .. m |-> [l |-> [a |-> "x", n |-> ToString(i)],
                                    a |-> [s |-> "x"],
                                    end |-> IF i = m THEN "none" ELSE "past"]]
 
+\* the same with ends derived from resolve_timeout: the resolved ones timed out, the
+\* firing one has its timeout still ahead
+SizeBatchT(m) == [i \in 1 .. m |-> [l |-> [a |-> "x", n |-> ToString(i)],
+                                    a |-> [s |-> "x"],
+                                    end |-> IF i = m /\ m % 2 = 0 THEN "tfuture" ELSE "tpast"]]
+
 \* the smallest input (37 bytes, limit 36) on which TruncateInBytes panics with the
 \* Go runtime of this tree (a rune slice of up to 32 runes has capacity 32), and
 \* the reproducer of DESIGN.md F6
@@ -37,6 +43,8 @@ GenRoots ==
 GenCasesOf(r) ==
   CASE r.kind = "empty" -> GBatch({<< >>})
                            \cup {[k |-> "batch", b |-> SizeBatch(m), gl |-> [a |-> "x"], sr |-> sr, max |-> max] :
+                                   m \in 1 .. MaxSize, max \in 0 .. (MaxSize + 1), sr \in BOOLEAN}
+                           \cup {[k |-> "batch", b |-> SizeBatchT(m), gl |-> [a |-> "x"], sr |-> sr, max |-> max] :
                                    m \in 1 .. MaxSize, max \in 0 .. (MaxSize + 1), sr \in BOOLEAN}
                            \cup {[k |-> "str", s |-> s] : s \in {<< >>} \cup {<<w>> : w \in Widths} \cup Canon}
     [] r.kind = "batch" -> GBatch(From(GAlertU, r.al, MaxBatch))
